@@ -203,6 +203,10 @@ impl DiscoveryDB {
     self
       .participant_last_life_signs
       .insert(guid.prefix, Instant::now());
+    #[cfg(rustdds_verif)]
+    self
+      .participant_last_life_signs
+      .insert(guid.prefix, Instant::now() + crate::verif::clock::offset());
 
     new_participant
   }
@@ -210,6 +214,8 @@ impl DiscoveryDB {
   pub fn participant_is_alive(&mut self, guid_prefix: GuidPrefix) {
     if let Some(ts) = self.participant_last_life_signs.get_mut(&guid_prefix) {
       let now = Instant::now();
+      #[cfg(rustdds_verif)]
+      let now = now + crate::verif::clock::offset();
       if now.duration_since(*ts) > std::time::Duration::from_secs(1) {
         debug!(
           "Participant alive update for {:?}, but no full update.",
@@ -310,6 +316,8 @@ impl DiscoveryDB {
   // lease_duration
   pub fn participant_cleanup(&mut self) -> Vec<(GuidPrefix, LostReason)> {
     let inow = Instant::now();
+    #[cfg(rustdds_verif)]
+    let inow = inow + crate::verif::clock::offset();
 
     let mut to_remove = Vec::new();
     // TODO: We are not cleaning up liast_life_signs table, but that should not be a
@@ -783,6 +791,23 @@ impl DiscoveryDB {
     status: AuthenticationStatus,
   ) {
     self.authentication_statuses.insert(guid_prefix, status);
+  }
+}
+
+#[cfg(rustdds_verif)]
+impl DiscoveryDB {
+  /// (known participant prefixes, external readers, external writers, attic readers, attic writers)
+  #[allow(clippy::type_complexity)]
+  pub(crate) fn verif_projection(
+    &self,
+  ) -> (Vec<GuidPrefix>, Vec<GUID>, Vec<GUID>, Vec<GUID>, Vec<GUID>) {
+    (
+      self.participant_proxies.keys().copied().collect(),
+      self.external_topic_readers.keys().copied().collect(),
+      self.external_topic_writers.keys().copied().collect(),
+      self.external_topic_readers_attic.keys().copied().collect(),
+      self.external_topic_writers_attic.keys().copied().collect(),
+    )
   }
 }
 
